@@ -36,6 +36,25 @@ type Program struct {
 	modulePath string
 	extraContractDirs []string
 	pureFuncs  map[string]bool
+	noNilCheckPkgs map[string]bool // packages whose functions are verified under "pointers that are dereferenced are non-nil"
+	smallInlinePkgs map[string]int  // package path -> max blocks for inlining (overrides inlineLimit)
+}
+
+func (p *Program) pkgPathOf(fn *ssa.Function) string {
+	for f := fn; f != nil; f = f.Parent() {
+		if f.Pkg != nil {
+			return f.Pkg.Pkg.Path()
+		}
+		if o := f.Origin(); o != nil && o.Pkg != nil {
+			return o.Pkg.Pkg.Path()
+		}
+	}
+	if r := fn.Signature.Recv(); r != nil {
+		if n := namedOf(r.Type()); n != nil && n.Obj().Pkg() != nil {
+			return n.Obj().Pkg().Path()
+		}
+	}
+	return ""
 }
 
 func loadProgram(repo string, patterns []string, extraContracts []string) (*Program, error) {
@@ -68,7 +87,7 @@ func loadProgram(repo string, patterns []string, extraContracts []string) (*Prog
 	prog.Build()
 	p := &Program{Repo: repo, Pkgs: pkgs, Prog: prog, fns: map[string]*ssa.Function{}, contracts: map[string]*Contract{},
 		ghostFuncs: map[string]*GhostFunc{}, ghostVars: map[string]*GhostVar{}, tags: map[string]int{}, allPkgs: map[string]*packages.Package{},
-		inlineLimit: 40, pureFuncs: map[string]bool{}}
+		inlineLimit: 40, pureFuncs: map[string]bool{}, noNilCheckPkgs: map[string]bool{}, smallInlinePkgs: map[string]int{}}
 	packages.Visit(pkgs, nil, func(pk *packages.Package) { p.allPkgs[pk.PkgPath] = pk })
 	if len(pkgs) > 0 && pkgs[0].Module != nil {
 		p.modulePath = pkgs[0].Module.Path
@@ -354,7 +373,11 @@ func (p *Program) inlinableStatic(fn *ssa.Function) bool {
 	if len(fn.Blocks) == 0 {
 		return false
 	}
-	if len(fn.Blocks) > p.inlineLimit {
+	limit := p.inlineLimit
+	if l, ok := p.smallInlinePkgs[p.pkgPathOf(fn)]; ok {
+		limit = l
+	}
+	if len(fn.Blocks) > limit {
 		return false
 	}
 	if p.inModule(fn) {
